@@ -590,16 +590,18 @@ fn generate_state_char_arms(
     let mut state_ranges: Map<StateIdx, Vec<(char, char)>> = Default::default();
 
     for range in range_transitions.iter() {
+        let (range_start, range_end) = match range_chars(range.start, range.end) {
+            Some(range_chars) => range_chars,
+            None => continue,
+        };
+
         match &range.value {
-            Trans::Trans(state_idx) => state_ranges.entry(*state_idx).or_default().push((
-                char::try_from(range.start).unwrap(),
-                char::try_from(range.end).unwrap(),
-            )),
+            Trans::Trans(state_idx) => state_ranges
+                .entry(*state_idx)
+                .or_default()
+                .push((range_start, range_end)),
             Trans::Accept(accepting) => {
                 let action_code = test_right_ctxs(ctx, accepting, default_rhs.clone());
-
-                let range_start = char::from_u32(range.start).unwrap();
-                let range_end = char::from_u32(range.end).unwrap();
 
                 let range_check = inclusive_range_contains(quote!(x), range_start, range_end);
                 state_char_arms.push(quote!(
@@ -739,6 +741,29 @@ fn generate_semantic_action_fns(
         .collect();
 
     quote!(#(#fns)*)
+}
+
+/// Convert end points of a range in a `RangeMap` to `char`s.
+///
+/// Range maps work on `u32`s, so splitting overlapping ranges (or removing ranges with `#`) can
+/// leave an end point in the surrogate range, which doesn't have `char`s. Such an end point is
+/// moved to the nearest scalar value inside the range. Returns `None` when the range doesn't
+/// contain any scalar values.
+fn range_chars(start: u32, end: u32) -> Option<(char, char)> {
+    let start = if (0xD800..=0xDFFF).contains(&start) {
+        0xE000
+    } else {
+        start
+    };
+    let end = if (0xD800..=0xDFFF).contains(&end) {
+        0xD7FF
+    } else {
+        end
+    };
+    if start > end {
+        return None;
+    }
+    Some((char::try_from(start).ok()?, char::try_from(end).ok()?))
 }
 
 fn right_ctx_fn_name(lexer_name: &syn::Ident, idx: &RightCtxIdx) -> syn::Ident {
@@ -899,8 +924,10 @@ fn generate_right_ctx_state_char_arms(
         value: next,
     } in range_transitions.iter()
     {
-        let start = char::try_from(*start).unwrap();
-        let end = char::try_from(*end).unwrap();
+        let (start, end) = match range_chars(*start, *end) {
+            Some(range_chars) => range_chars,
+            None => continue,
+        };
 
         if states[next.0].accepting.is_empty() {
             state_ranges.entry(*next).or_default().push((start, end));
